@@ -24,7 +24,7 @@ SHARDS = {"quick": 8, "thorough": 16}
 DEADLINE = {"quick": 40, "thorough": 400}
 REQUIRED = {
     "tok:pad:ok": 500, "tok:nopad:ok": 500, "tok:pad:rejected-char": 50, "tok:nopad:rejected-char": 50,
-    "toktype:F": 20, "tok:settings-changed-between-calls": 200, "tok:handed-out-tokens-scribbled-on": 100, "toktype:P": 100, "toktype:C": 100, "toktype:V": 100, "toktype:!": 20, "toktype:=": 20,
+    "tok:via-parser:pad": 300, "tok:via-parser:nopad": 300, "toktype:F": 20, "tok:settings-changed-between-calls": 200, "tok:handed-out-tokens-scribbled-on": 100, "toktype:P": 100, "toktype:C": 100, "toktype:V": 100, "toktype:!": 20, "toktype:=": 20,
 }
 
 
@@ -61,6 +61,11 @@ def strings(cfg, rng):
                 yield pre + rng.choice(["sgn", "sgn(x)", "sg", "sgnn"]) + rng.choice(["", "(x)", " "])
             else:
                 yield "x" + " " * n1 + "+" + "\t" * rng.randint(1, 40) + "y"
+        elif c < 0.975:
+            # characters that str.strip()/str.split()/str.isspace() treat as blanks but the alphabet does not have, at the ends
+            ws = rng.choice(["\xa0", "\x0c", "\x0b", "\x1c", "\x1d", "\x1e", "\x1f", "\x85", "\u2003", "\u2028", "\u2029", "\u3000", "\u1680", "\u202f", "\ufeff", "\u200b"])
+            base = rng.choice(corp) if rng.random() < 0.5 else WT.gen_text(rng)
+            yield rng.choice([base + ws, ws + base, ws + base + ws, " " + base + ws, base + " " + ws, ws, base + ws * 3])
         else:
             k = rng.choice(["s", "sg", "sgn", "sgnn", "ssgn", "gn", "SGN", "sgN"])
             yield rng.choice(["", "x", "2", "(", " "]) + k + rng.choice(["", "(", "(x)", "x", " (x)", "2"])
@@ -78,10 +83,33 @@ def run(rec, cfg):
 
     flip = Tokenizer()
     classes = set()
-    for s in strings(cfg, rng):
+    # the parser's own tokenize() is the second public way to the same job (it adds a text-keyed cache):
+    # one long-lived parser per padding mode, and a new one now and then
+    from mathy_core.parser import ExpressionParser
+
+    parsers = {True: ExpressionParser(), False: ExpressionParser()}
+    parsers[False].tokenizer.exclude_padding = False
+    plain_ptok = getattr(ExpressionParser.tokenize, "__vmon_original__", ExpressionParser.tokenize)
+
+    def via_parser(p, s, keep):
+        try:
+            res, exc = plain_ptok(p, s), None
+        except BaseException as e:
+            res, exc = None, e
+        rec.arm("tok:via-parser:" + ("pad" if keep else "nopad"))
+        MP.check_tokens("C11", s, keep, res, exc)
+
+    for n_s, s in enumerate(strings(cfg, rng)):
         if cfg.out_of_time():
             rec.truncated = True
             break
+        if n_s % 3 == 0 or (s and (not s[0].isascii() or not s[-1].isascii() or s[0].isspace() or s[-1].isspace() or s[0] < " " or s[-1] < " ")):
+            for keep in (False, True):
+                via_parser(parsers[not keep], s, keep)
+                if n_s % 2:
+                    via_parser(parsers[not keep], s, keep)      # again: served from the cache
+            if n_s % 7 == 0:
+                via_parser(ExpressionParser(), s, False)
         for a, b in zip(s, s[1:]):
             classes.add((MP.char_class(a), MP.char_class(b)))
         outs = {}
@@ -171,8 +199,18 @@ def replay(rec, cfg, w):
     from mathy_core.tokenizer import Tokenizer
 
     MP.attach_tokenizer("C11")
+    from mathy_core.parser import ExpressionParser
+
     for excl in (True, False):
         try:
             Tokenizer(exclude_padding=excl).tokenize(w["text"])
         except Exception:
             pass
+        p = ExpressionParser()
+        p.tokenizer.exclude_padding = excl
+        for _ in (0, 1):
+            try:
+                res, exc = p.tokenize(w["text"]), None
+            except BaseException as e:
+                res, exc = None, e
+            MP.check_tokens("C11", w["text"], not excl, res, exc)
